@@ -101,11 +101,31 @@ def build(cfg, quiet=True):
     stamp = os.path.join(out, "OK")
     if os.path.exists(stamp):
         return out
-    # remove stale builds of same config
     os.makedirs(CACHE, exist_ok=True)
+    # one builder per configuration at a time (several checks / helpers may run concurrently)
+    import fcntl
+    lockf = open(os.path.join(CACHE, ".lock-" + cfg), "w")
+    fcntl.flock(lockf, fcntl.LOCK_EX)
+    try:
+        return _build_locked(cfg, cc, cflags, ldflags, th, out, stamp, quiet)
+    finally:
+        fcntl.flock(lockf, fcntl.LOCK_UN)
+        lockf.close()
+
+
+def _build_locked(cfg, cc, cflags, ldflags, th, out, stamp, quiet):
+    if os.path.exists(stamp):
+        return out
+    # remove stale builds of the same configuration (disk), but not ones that may still be in use
+    now = time.time()
     for d in os.listdir(CACHE):
-        if d.startswith(cfg + "-"):
-            shutil.rmtree(os.path.join(CACHE, d), ignore_errors=True)
+        if d.startswith(cfg + "-") and os.path.join(CACHE, d) != out:
+            full = os.path.join(CACHE, d)
+            try:
+                if now - os.path.getmtime(full) > 2400:
+                    shutil.rmtree(full, ignore_errors=True)
+            except OSError:
+                pass
     tmp = out + ".tmp%d" % os.getpid()
     shutil.rmtree(tmp, ignore_errors=True)
     os.makedirs(tmp)
@@ -134,7 +154,15 @@ def build(cfg, quiet=True):
             os.unlink(o)
     with open(os.path.join(tmp, "INFO"), "w") as f:
         f.write("cfg=%s\ncc=%s\ncflags=%s\ntree=%s\n" % (cfg, cc, cflags, th))
-    os.rename(tmp, out)
+    try:
+        os.rename(tmp, out)
+    except OSError:
+        # somebody else produced the same build meanwhile
+        if os.path.exists(stamp):
+            shutil.rmtree(tmp, ignore_errors=True)
+            return out
+        shutil.rmtree(out, ignore_errors=True)
+        os.rename(tmp, out)
     open(stamp, "w").close()
     if not quiet:
         sys.stderr.write("[build] %s in %.1fs -> %s\n" % (cfg, time.time() - t0, out))
